@@ -206,7 +206,7 @@ namespace {
         case M_MUTEX:
         {
             // the waker holds the mutex before the waiter starts to lock it
-            while (!p.flag) pika::this_thread::yield();
+            while (!p.flag) poll_pause(false);
             p.registered = true;
             ev(1, idx, p.mech);
             p.mtx.lock();
@@ -228,7 +228,7 @@ namespace {
             // pika::mutex needs a pika task: this waker is always a task
             p.mtx.lock();
             p.flag = true;
-            while (!p.registered) pika::this_thread::yield();
+            while (!p.registered) poll_pause(false);
             yield_here(false, p.waker_delay);
             p.wake_invoked = true;
             p.wake_inv_seq = sim_seq();
@@ -236,7 +236,7 @@ namespace {
             p.wake_returned = true;
             return;
         }
-        while (!p.registered || p.co_registered < p.co_waiters) yield_here(os, 1);
+        while (!p.registered || p.co_registered < p.co_waiters) poll_pause(os);
         yield_here(os, p.waker_delay);
         p.wake_invoked = true;
         p.wake_inv_seq = sim_seq();
